@@ -1,6 +1,8 @@
 package props
 
 import (
+	"github.com/vedadiyan/genql"
+
 	"fmt"
 	"math"
 	"strings"
@@ -11,7 +13,7 @@ import (
 	"verifharness/internal/val"
 )
 
-var c05Floor = []string{"keys.1", "keys.2", "keys.3", "dir.asc", "dir.desc", "dir.mixed", "key.null", "key.computed-null", "key.alias", "key.alias.nonword", "key.alias.shadow", "key.table-qualified", "key.str", "key.num", "ties", "limit.huge",
+var c05Floor = []string{"keys.1", "keys.2", "keys.3", "dir.asc", "dir.desc", "dir.mixed", "key.null", "key.computed-null", "key.alias", "key.alias.nonword", "key.alias.shadow", "key.table-qualified", "key.native", "reexec.window", "key.str", "key.num", "ties", "limit.huge",
 	"limit.bare", "limit.beyond-int64", "limit.offset", "limit.comma", "limit.zero", "offset.beyond", "window.straddle", "window.inside", "window.noorder", "where",
 	"shape.distinct", "shape.agg-all", "shape.group", "shape.union", "shape.bigint", "shape.union-order", "shape.qualified", "shape.shrunk-offset"}
 
@@ -33,6 +35,7 @@ func init() {
 		MinNontrivial: 50,
 		Phases: []fw.Phase{
 			{Name: "order", N: func(t fw.Tier) int { return pick(t, 12000, 400000) }, Run: c05Order},
+			{Name: "reexec", N: func(t fw.Tier) int { return pick(t, 800, 20000) }, Run: c05Reexec},
 			{Name: "shapes", N: func(t fw.Tier) int { return pick(t, 1500, 40000) }, Run: c05Shapes},
 		},
 		Witness: sqlWitness,
@@ -175,7 +178,20 @@ func c05Order(c *fw.Case) {
 		}
 		orderSQL = " ORDER BY " + strings.Join(parts, ", ")
 	}
-	doc := func() map[string]any { return DocOf(t) }
+	// (not with the computed key: arithmetic takes float64 operands only)
+	native := (force == "key.native" || (force == "" && c.Chance(0.1))) && !containsStr(feats, "key.computed-null")
+	if native {
+		feats = append(feats, "key.native")
+	}
+	doc := func() map[string]any {
+		d := DocOf(t)
+		if native {
+			// whole numbers as natively typed Go integers next to fractional float64 values
+			nativize(c, d["t1"].([]any), "n1")
+			nativize(c, d["t1"].([]any), "n2")
+		}
+		return d
+	}
 	fail := func(kind, msg string, extra map[string]any) {
 		extra["doc"] = doc()
 		c.Violate(kind, msg, extra)
@@ -196,6 +212,9 @@ func c05Order(c *fw.Case) {
 		out := make([]any, len(keys))
 		for i, k := range keys {
 			out[i] = val.Deref(m[k.out])
+			if val.IsNumber(out[i]) {
+				out[i], _ = val.Rat(out[i]).Float64()
+			}
 		}
 		return out
 	}
@@ -418,7 +437,7 @@ func c05Shapes(c *fw.Case) {
 	src := len(t.Rows)
 	var base string
 	sortedBy, sortedDesc := "", false // output column the un-windowed sequence must be sorted by
-	exact := true                    // the un-windowed sequence is deterministic
+	exact := true                     // the un-windowed sequence is deterministic
 	switch kind {
 	case "distinct":
 		col := gen.Pick(c.R, []string{"s1", "s2", "n1", "b1"})
@@ -629,7 +648,6 @@ func c05CmpInt(a, b any) int {
 	return 0
 }
 
-
 // c05Quote back-ticks an output column name that is not a plain word.
 func c05Quote(name string) string {
 	for _, ch := range name {
@@ -638,4 +656,60 @@ func c05Quote(name string) string {
 		}
 	}
 	return name
+}
+
+// c05Reexec: one Query with a LIMIT/OFFSET window kept and executed several
+// times while a variable its WHERE reads changes, so that the filtered sequence
+// is first shorter than the window reaches and later longer (and the other way
+// round): every execution returns exactly the window of its own sequence.
+func c05Reexec(c *fw.Case) {
+	t := gen.RandTable(c.R, gen.TableSpec{Name: "t1", MinRows: 3, MaxRows: pick(c.Tier, 14, 40), NumCols: 2, StrCols: 1, StrStyle: gen.Plain})
+	n := len(t.Rows)
+	lim, off := 1+c.Intn(n), c.Intn(n)
+	limSQL := fmt.Sprintf(" LIMIT %d OFFSET %d", lim, off)
+	if c.Chance(0.4) {
+		limSQL = fmt.Sprintf(" LIMIT %d, %d", off, lim)
+	}
+	order := gen.Pick(c.R, []string{" ORDER BY rid", " ORDER BY rid DESC", " ORDER BY n2, rid", ""})
+	sql := "SELECT rid, n1, n2 FROM t1 WHERE rid >= GETVAR('from')" + order + limSQL
+	vars := map[string]any{"from": 0.0}
+	doc := DocOf(t)
+	q, nerr := newSafe(doc, sql, genql.WithVars(vars))
+	if q == nil {
+		c.Violate("error", fmt.Sprintf("query could not be constructed: %v", nerr.Describe()), map[string]any{"sql": sql})
+		return
+	}
+	c.Feature("reexec.window")
+	// few rows left, many rows left, few again, all
+	froms := []float64{float64(n - 1 - c.Intn(2)), 0, float64(n / 2), float64(n - 1), float64(c.Intn(n)), 0}
+	for i, from := range froms {
+		vars["from"] = from
+		got := execBuilt(q)
+		fresh := Run(DocOf(t), sql, genql.WithVars(map[string]any{"from": from}))
+		c.Evals(2)
+		if !fresh.OK() {
+			c.Violate("error", fmt.Sprintf("a freshly built query failed: %v", fresh.Describe()), map[string]any{"sql": sql, "from": from})
+			return
+		}
+		// the fresh result itself against the model: rows with rid >= from, in order, cut to the window
+		left := n - int(from)
+		want := left - off
+		if want > lim {
+			want = lim
+		}
+		if want < 0 {
+			want = 0
+		}
+		if len(fresh.Rows) != want {
+			c.Violate("window-length", fmt.Sprintf("a fresh query returned %d rows, the window of %d rows at offset %d limit %d has %d", len(fresh.Rows), left, off, lim, want), map[string]any{"sql": sql, "from": from, "doc": doc, "observed": fresh.Describe()})
+			return
+		}
+		if !got.OK() || !(len(got.Rows) == 0 && len(fresh.Rows) == 0) && !val.SameSeq(got.Rows, fresh.Rows) {
+			c.Violate("reexec-window", fmt.Sprintf("execution %d of the same Query (from = %v) returned rids %v, a fresh query returns %v", i+1, from, Rids(got.Rows), Rids(fresh.Rows)),
+				map[string]any{"sql": sql, "doc": doc, "execution": i + 1, "from": from, "observed": got.Describe(), "fresh_query": fresh.Describe()})
+			return
+		}
+	}
+	c.Sample(map[string]any{"sql": sql, "rows": n})
+	c.Nontrivial(sql + "|" + val.Canon(t.Array()))
 }
